@@ -274,7 +274,7 @@ DEFAULT_SPEC = {
     'collect': 'file',   # 'file' or 'manager' (direct call only)
     'max_gb': 1.0, 'n_extra_genes': None, 'extra_first': False,
     'h5_layout': None, 'level_pool': None, 'unsorted_indices': None,
-    'full_cells': 0, 'query_order': None,
+    'full_cells': 0, 'query_order': None, 'flat_cells': 0,
 }
 
 
@@ -424,6 +424,12 @@ def build_world(spec, work):
             z = Xq[i] == 0
             Xq[i, z] = np.floor(rng.uniform(1, 4, size=int(z.sum()))) \
                 if raw else rng.uniform(0.1, 1.0, size=int(z.sum()))
+    if s.get('flat_cells'):
+        # cells with one and the same non-zero value in every gene
+        vals = [5.0, 3.0, 7.0, 0.1, 11.0, 2.0, 13.0, 1.0] if raw else \
+            [3.7, 0.1, 5.3, 1.9, 9.01, 0.7, 2.2, 12.6]
+        for k in range(min(int(s['flat_cells']), n_cells)):
+            Xq[n_cells - 1 - k, :] = vals[k % len(vals)]
     if s.get('dup_rows'):
         # make some rows identical to others (C06)
         for _ in range(max(1, n_cells // 4)):
